@@ -578,6 +578,12 @@ func ruleMODE2(c *Ctx) {
 				"action list is built as "+strings.Join(summary, " then ")+": every falling-through action precedes the returning one", bad)
 		}
 	}
+	// the order established here must survive into the table
+	if w := findLexerWriter(c); w != nil && w.transCall != nil {
+		checkWriterActionOrder(c, rule, w)
+	} else {
+		c.unres(rule, "codegen.EmitLexer/action-order", "", "lexer row writer not found")
+	}
 	if nFuncs < 2 {
 		c.unres(rule, "ast/action-list-builders", "", "only %d functions fill a mode.Actions list; token and fragment rules expected", nFuncs)
 	}
